@@ -97,7 +97,7 @@ pub fn behaviour() -> Behaviour {
         cfg,
         adjust: no_adjust,
         render,
-        quick: 1500,
+        quick: 4000,
         thorough: 20000,
         batch: 25,
         assumptions: &["m_into_* methods add a target-specific offset so that method identity is observable"],
